@@ -210,12 +210,12 @@ func (o Op) Coq() string {
 		return fmt.Sprintf("AddInput %d%%nat %d%%nat", o.A, o.B)
 	case "RemoveInput":
 		return fmt.Sprintf("RemoveInput %d%%nat %d%%nat", o.A, o.B)
-	case "Stabilize":
+	case "Stabilize", "ParStabilize":
 		parts := make([]string, len(o.Plan))
 		for i, a := range o.Plan {
 			parts[i] = a.Coq()
 		}
-		return "Stabilize [" + strings.Join(parts, "; ") + "]"
+		return o.K + " [" + strings.Join(parts, "; ") + "]"
 	default:
 		return "StabilizeCancelled"
 	}
@@ -260,15 +260,15 @@ func (o Op) String() string {
 		return fmt.Sprintf("n%d.AddInput(n%d)", o.A, o.B)
 	case "RemoveInput":
 		return fmt.Sprintf("n%d.RemoveInput(n%d)", o.A, o.B)
-	case "Stabilize":
+	case "Stabilize", "ParStabilize":
 		if len(o.Plan) == 0 {
-			return "Stabilize"
+			return o.K
 		}
 		parts := make([]string, len(o.Plan))
 		for i, a := range o.Plan {
 			parts[i] = a.String()
 		}
-		return "Stabilize{" + strings.Join(parts, ",") + "}"
+		return o.K + "{" + strings.Join(parts, ",") + "}"
 	default:
 		return "Stabilize(cancelled ctx)"
 	}
